@@ -161,7 +161,15 @@ def main():
         # Integer -> Float promotion rounds beyond 2^53 (C12's known finding): where integers meet floats the claim is
         # restricted to |int| <= 2^53; the region beyond is asked separately (twin query X/..) and reported under one role key
         tys_here = {rowvals[f][1] for f in rowvals}
-        mixed = "i64" in tys_here and ("f64" in tys_here or "Float" in json.dumps(e))
+        ej = json.dumps(e)
+        float_fn = any(('"f": "%s"' % f_) in ej for f_ in exprsem.FLOAT_UNARY) or '"f": "Divide"' in ej or '"f": "Round"' in ej or '"f": "Trunc"' in ej or '"f": "Pow"' in ej
+        int_lit_big = any(abs(int(x)) > P53 for x in re.findall(r'"t": "Integer", "v": "(-?\d+)"', ej))
+        mixed = ("i64" in tys_here or int_lit_big) and ("f64" in tys_here or "Float" in ej or float_fn)
+        if mixed and int_lit_big:
+            # an integer literal beyond 2^53 meeting float arithmetic: the rounding of the promotion is C12's finding and cannot
+            # be excluded through the columns; outside the claim
+            skipped["integer literal beyond 2^53 in float arithmetic"] = skipped.get("integer literal beyond 2^53 in float arithmetic", 0) + 1
+            continue
         small = [land(["(bvsle %s %s)" % (smt.bv64(-P53), rowvals[f][2]), "(bvsle %s %s)" % (rowvals[f][2], smt.bv64(P53))]) for f in rowvals if rowvals[f][1] == "i64"] if mixed else []
         if "ok" not in ans:
             # range propagation fails: a violation as soon as the value exists for some input
